@@ -13,6 +13,9 @@ import numpy as np
 from . import netgen, refmodel as rm, seeds, trace as tr
 
 NAMES = ["S0", "S1", "S2", "S3", "S4", "S5"]
+# valid identifiers that are spelled like a constant / symbol of some formula dialect (SBML L3 infix: pi, time, inf, avogadro,
+# exponentiale, nan - matched case-insensitively there): a species keeps its meaning whatever it is called
+AWKWARD_NAMES = ["Pi", "Time", "Avogadro", "ExponentialE", "PI", "TIME"]     # (not Inf / NaN: Python reads those as numbers)
 SIM_MODES = ["det", "ssa", "safe", "volume", "delay", "delayvolume"]
 
 
@@ -95,9 +98,12 @@ def rich_rate(r, species, params=None):
 
 def base_model(r, n_species=None, n_rxn=None, delays=True, rules=True):
     n = n_species or r.randint(1, 3)
-    species = NAMES[:n]
+    names = list(NAMES)
+    if seeds.rng(r.getrandbits(32), "names").random() < 0.15:
+        names = list(AWKWARD_NAMES)
+    species = names[:n]
     m = {"species": list(species), "init": {s: r.choice([0, 1, 2, 4, 7, 12]) for s in species}, "params": {},
-         "reactions": [], "rules": []}
+         "reactions": [], "rules": [], "names": names}
     for _ in range(n_rxn if n_rxn is not None else r.randint(1, 3)):
         m["reactions"].append(safe_reaction(r, m, species))
     if delays and r.random() < 0.5:
@@ -128,7 +134,7 @@ def idle_species(m):
 def add_species_rule(r, m, allow_ode=False, existing_target=None):
     """A rule assigning a species that is never a reactant/product: a fresh one, or an already declared idle one (then the
     rule is the only edit: nothing else re-arms the model's initialisation). Returns the rule or None."""
-    free = [s for s in NAMES if s not in m["species"]]
+    free = [s for s in m.get("names", NAMES) if s not in m["species"]]
     if existing_target is None and not free:
         return None
     tgt = existing_target if existing_target is not None else free[-1]
@@ -198,7 +204,7 @@ def gen_history(r, n_ops, alphabet, param_rule_stratum=False, allow_ode=False):
         if not plain_species:
             continue
         if kind == "add_species":
-            free = [s for s in NAMES if s not in shadow["species"]]
+            free = [s for s in shadow.get("names", NAMES) if s not in shadow["species"]]
             if not free or len(plain_species) >= 5:
                 continue
             v = r.choice([0, 1, 3, 9])
